@@ -2,7 +2,7 @@
    check: run one case, produce the canonical observation as a list of
    (tag, numbers).  No logic beyond calling the model and flattening. *)
 From Coq Require Import String.
-From BS Require Export Impl.Access Impl.Cache.
+From BS Require Export Impl.Access Impl.Cache Ref.Grammar.
 Open Scope string_scope.
 Open Scope N_scope.
 Open Scope list_scope.
@@ -239,10 +239,10 @@ Fixpoint run_ops (c : cache) (keys : list N) (ops : list cop) : list item :=
       match o with
       | OpInsert k v =>
           match insert c k v with
-          | COk (n, c') => ("i", [0; n]) :: observe c' keys' ++ run_ops c' keys' rest
-          | CErr ValueLargerThanBuffer => ("i", [1]) :: observe c keys' ++ run_ops c keys' rest
-          | CErr ValueAlreadyPresent => ("i", [2]) :: observe c keys' ++ run_ops c keys' rest
-          | CPanic => [("panic", [])]
+          | (COk n, c') => ("i", [0; n]) :: observe c' keys' ++ run_ops c' keys' rest
+          | (CErr ValueLargerThanBuffer, c') => ("i", [1]) :: observe c' keys' ++ run_ops c' keys' rest
+          | (CErr ValueAlreadyPresent, c') => ("i", [2]) :: observe c' keys' ++ run_ops c' keys' rest
+          | (CPanic, _) => [("panic", [])]
           end
       | OpGet k =>
           match get c k with
@@ -262,3 +262,34 @@ Fixpoint run_ops (c : cache) (keys : list N) (ops : list cop) : list item :=
 
 Definition run_cache (capacity : N) (ops : list cop) : list item :=
   run_ops (cache_new capacity) [] ops.
+
+(* ---- the streaming reference decoder on the same case (model-internal differential:
+   Impl vs Ref on res / consumed / callbacks, the statement of Proofs/ImplRef.v) ---- *)
+Definition ref_items {A} (o : outcome A) : list item :=
+  match o with
+  | Done _ s => [("res", [0]); ("consumed", [pos s])] ++ events_items (hi s)
+  | Fail e h => [("res", 1 :: err_code e)] ++ events_items h
+  | Stuck => [("res", [3])]
+  end.
+
+Definition run_ref_case (en : entry) (b : list byte) (param : N) (brk : option N) : list item :=
+  let o := policy brk in
+  match en with
+  | E_script => ref_items (run_ref r_script o 0 b [])
+  | E_outpoint => ref_items (run_ref r_outpoint o 0 b [])
+  | E_txin => ref_items (run_ref r_txin o 0 b [])
+  | E_txout => ref_items (run_ref r_txout o 0 b [])
+  | E_txins => ref_items (run_ref r_txins o 0 b [])
+  | E_txouts => ref_items (run_ref r_txouts o 0 b [])
+  | E_witness => ref_items (run_ref r_witness o 0 b [])
+  | E_witnesses => ref_items (run_ref (r_witnesses param) o 0 b [])
+  | E_transaction => ref_items (run_ref r_tx o 0 b [])
+  | E_header => ref_items (run_ref r_header o 0 b [])
+  | E_block => ref_items (run_ref r_block o 0 b [])
+  | E_parse_len | E_scan_len => ref_items (run_ref r_compact o 0 b [])
+  | E_u8 | E_read_u8 => ref_items (run_ref (r_u 1) o 0 b [])
+  | E_u16 | E_read_u16 => ref_items (run_ref (r_u 2) o 0 b [])
+  | E_u32 | E_i32 | E_read_u32 | E_read_i32 => ref_items (run_ref (r_u 4) o 0 b [])
+  | E_u64 | E_read_u64 => ref_items (run_ref (r_u 8) o 0 b [])
+  | E_read_slice => ref_items (run_ref (take param) o 0 b [])
+  end.
